@@ -73,3 +73,41 @@ package pipeline
 //@ ensures structs: implies(result1 == nil, forall(i, 0, len(result0.Structs)-1, !(result0.Structs[i+1].Name < result0.Structs[i].Name)))
 //@ loop 0 invariant fresh(reducedEnums)
 //@ ensures enums: implies(result1 == nil, forall(i, 0, len(result0.Enums)-1, !(result0.Enums[i+1].Name < result0.Enums[i].Name)))
+
+// ---- imports of the rendered routes file (C09): every package a route's parameter or response type comes from,
+// and every controller's package, has an entry ----
+//@ func GleecePipeline.appendRouteImports props C09,C14
+//@ requires imports != nil && forall(x, string, implies(indom(imports, x), imports[x] != nil))
+//@ modifies elems(imports), any(mapset.Set[string])
+//@ ensures keep: forall(x, string, implies(old(indom(imports, x)), indom(imports, x)))
+//@ ensures params: forall(i, 0, len(route.FuncParams), implies(route.FuncParams[i].TypeMeta.PkgPath != "", indom(imports, route.FuncParams[i].TypeMeta.PkgPath)))
+//@ ensures resps: forall(i, 0, len(route.Responses), implies(route.Responses[i].PkgPath != "", indom(imports, route.Responses[i].PkgPath)))
+//@ ensures nonnil: forall(x, string, implies(indom(imports, x) && !old(indom(imports, x)), imports[x] != nil && fresh(imports[x])))
+//@ ensures same: forall(x, string, implies(old(indom(imports, x)), imports[x] == old(imports[x])))
+//@ loop 0 invariant 0 <= _n && _n <= len(route.FuncParams)
+//@ loop 0 invariant forall(x, string, implies(old(indom(imports, x)), imports[x] == old(imports[x]) && imports[x] != nil))
+//@ loop 0 invariant forall(x, string, implies(old(indom(imports, x)), indom(imports, x)))
+//@ loop 0 invariant forall(i, 0, _n, implies(route.FuncParams[i].TypeMeta.PkgPath != "", indom(imports, route.FuncParams[i].TypeMeta.PkgPath)))
+//@ loop 0 invariant forall(x, string, implies(indom(imports, x) && !old(indom(imports, x)), imports[x] != nil && fresh(imports[x])))
+//@ loop 1 invariant 0 <= _n && _n <= len(route.Responses)
+//@ loop 1 invariant forall(x, string, implies(old(indom(imports, x)), imports[x] == old(imports[x]) && imports[x] != nil))
+//@ loop 1 invariant forall(x, string, implies(old(indom(imports, x)), indom(imports, x)))
+//@ loop 1 invariant forall(i, 0, len(route.FuncParams), implies(route.FuncParams[i].TypeMeta.PkgPath != "", indom(imports, route.FuncParams[i].TypeMeta.PkgPath)))
+//@ loop 1 invariant forall(i, 0, _n, implies(route.Responses[i].PkgPath != "", indom(imports, route.Responses[i].PkgPath)))
+//@ loop 1 invariant forall(x, string, implies(indom(imports, x) && !old(indom(imports, x)), imports[x] != nil && fresh(imports[x])))
+//@ spec routeImported(m map[string][]string, r definitions.RouteMetadata) bool = forall(i, 0, len(r.FuncParams), implies(r.FuncParams[i].TypeMeta.PkgPath != "", indom(m, r.FuncParams[i].TypeMeta.PkgPath))) && forall(i, 0, len(r.Responses), implies(r.Responses[i].PkgPath != "", indom(m, r.Responses[i].PkgPath)))
+//@ spec routeCollected(m map[string]mapset.Set[string], r definitions.RouteMetadata) bool = forall(i, 0, len(r.FuncParams), implies(r.FuncParams[i].TypeMeta.PkgPath != "", indom(m, r.FuncParams[i].TypeMeta.PkgPath))) && forall(i, 0, len(r.Responses), implies(r.Responses[i].PkgPath != "", indom(m, r.Responses[i].PkgPath)))
+//@ func GleecePipeline.getImports props C09,C14
+//@ modifies any(mapset.Set[string])
+//@ ensures ctl: forall(c, 0, len(controllers), indom(result, controllers[c].PkgPath))
+//@ ensures routes: forall(c, 0, len(controllers), forall(r, 0, len(controllers[c].Routes), routeImported(result, controllers[c].Routes[r])))
+//@ loop 0 invariant 0 <= _n && _n <= len(controllers) && fresh(imports)
+//@ loop 0 invariant forall(x, string, implies(indom(imports, x), imports[x] != nil && fresh(imports[x])))
+//@ loop 0 invariant forall(c, 0, _n, indom(imports, controllers[c].PkgPath))
+//@ loop 0 invariant forall(c, 0, _n, forall(r, 0, len(controllers[c].Routes), routeCollected(imports, controllers[c].Routes[r])))
+//@ loop 1 invariant 0 <= _n && _n <= len(controller.Routes) && fresh(imports) && 0 <= _n0 && _n0 < len(controllers) && controller == controllers[_n0]
+//@ loop 1 invariant forall(x, string, implies(indom(imports, x), imports[x] != nil && fresh(imports[x])))
+//@ loop 1 invariant forall(c, 0, _n0, indom(imports, controllers[c].PkgPath)) && indom(imports, controller.PkgPath)
+//@ loop 1 invariant forall(c, 0, _n0, forall(r, 0, len(controllers[c].Routes), routeCollected(imports, controllers[c].Routes[r])))
+//@ loop 1 invariant forall(r, 0, _n, routeCollected(imports, controller.Routes[r]))
+//@ loop 2 invariant fresh(plainImportsMap) && forall(k, string, implies(seen(k), indom(plainImportsMap, k)))
